@@ -46,6 +46,10 @@ func runC17(s *core.Sim, tier string) RunInfo {
 	top := first + k
 	plan = append(plan, fmt.Sprintf("initial %d..%d", first, top-1))
 	ctx := context.Background()
+	if s.Tape.Coin("stop-races-with-users", 1, 5) {
+		runC17Stop(s, w, first, top, &plan, &obs64)
+		return info()
+	}
 
 	// writers
 	type run struct{ from, to uint64 }
@@ -218,4 +222,132 @@ func runC17(s *core.Sim, tier string) RunInfo {
 	}
 	w.checkStore(m, "after all writers finished")
 	return info()
+}
+
+// runC17Stop: Stop is called while writers and readers are still using the Store. Nothing may
+// panic or hang, and after a restart everything whose Append and Sync had returned before Stop
+// was called is there, in one gap-free chain with Head and Tail resolving (C06's promise, under
+// C17's concurrency).
+func runC17Stop(s *core.Sim, w *SW, first, top uint64, plan *[]string, obs *int64) {
+	var mu sync.Mutex
+	stopCalled := false
+	acked := map[uint64]bool{}
+	for h := first; h < top; h++ {
+		acked[h] = true
+	}
+	var tasks []*core.Task
+	nw := 1 + s.Tape.Draw("writers", 3)
+	next := top
+	for wi := 0; wi < nw; wi++ {
+		n := 1 + s.Tape.Draw("runs", 4)
+		type run struct{ from, to uint64 }
+		var rs []run
+		for j := 0; j < n; j++ {
+			ln := uint64(1 + s.Tape.Draw("run-len", 4))
+			rs = append(rs, run{next, next + ln - 1}) // one contiguous chain, split among the writers
+			next += ln
+		}
+		*plan = append(*plan, fmt.Sprintf("writer%d %v", wi, rs))
+		tasks = append(tasks, s.Go(fmt.Sprintf("writer%d", wi), func() {
+			for _, r := range rs {
+				c, cancel := context.WithTimeout(context.Background(), time.Minute)
+				err := w.St.Append(c, w.Ch.Range(r.from, r.to)...)
+				if err == nil {
+					err = w.St.Sync(c)
+				}
+				cancel()
+				if err != nil {
+					return // the Store is stopping: an error is a fine answer
+				}
+				mu.Lock()
+				if !stopCalled {
+					for h := r.from; h <= r.to; h++ {
+						acked[h] = true
+					}
+				}
+				mu.Unlock()
+				atomic.AddInt64(obs, 1)
+			}
+		}))
+	}
+	for ri, nr := 0, 1+s.Tape.Draw("readers", 2); ri < nr; ri++ {
+		ri := ri
+		rounds := 2 + s.Tape.Draw("rounds", 5)
+		tasks = append(tasks, s.Go(fmt.Sprintf("reader%d", ri), func() {
+			for i := 0; i < rounds; i++ {
+				c, cancel := context.WithTimeout(context.Background(), 10*time.Second)
+				if hd, err := w.St.Head(c); err == nil {
+					_, _ = w.St.GetByHeight(c, hd.Height())
+					_, _ = w.St.Get(c, hd.Hash())
+					// a waiter on a height that may never come while the Store stops
+					_, _ = w.St.GetByHeight(c, hd.Height()+uint64(1+(i+ri)%3))
+				}
+				cancel()
+				s.Yield("reader-pause")
+			}
+		}))
+	}
+	var stopErr error
+	pauses := s.Tape.Draw("stop-after-pauses", 12)
+	stopper := s.Go("stopper", func() {
+		for i := 0; i < pauses; i++ {
+			s.Yield("stopper-pause")
+		}
+		mu.Lock()
+		stopCalled = true
+		mu.Unlock()
+		c, cancel := context.WithTimeout(context.Background(), 5*time.Minute)
+		defer cancel()
+		stopErr = w.St.Stop(c)
+	})
+	tasks = append(tasks, stopper)
+	*plan = append(*plan, fmt.Sprintf("Stop after %d pauses of the stopper", pauses))
+	if stuck := s.Settle(20*time.Minute, tasks...); len(stuck) > 0 {
+		s.Violate("hang", map[string]string{"op": opName(stuck[0].Name), "racing": "stop"}, "task %s did not finish while the Store was being stopped [%s; %v]", stuck[0].Name, w.cfg(), *plan)
+		return
+	}
+	for _, t := range tasks {
+		if t.Panic != nil {
+			s.Violate("panic", map[string]string{"op": opName(t.Name), "racing": "stop"}, "%s panicked while the Store was being stopped: %v\n%s", t.Name, t.Panic, t.Stack)
+			return
+		}
+	}
+	if stopErr != nil {
+		s.Violate("stop-error", map[string]string{"racing": "users"}, "Stop with users still active: %v", stopErr)
+		return
+	}
+	s.Probe("stop-raced-with-users")
+	if err := w.Open(); err != nil {
+		s.Violate("start-error", map[string]string{"after": "stop-race"}, "Start after a Stop that raced with users: %v", err)
+		return
+	}
+	w.do("check-after-stop-race", func() {
+		c := ctxBG()
+		hd, herr := w.St.Head(c)
+		tl, terr := w.St.Tail(c)
+		if herr != nil || terr != nil {
+			s.Violate("ends-lost-after-stop", nil, "after restart Head err=%v Tail err=%v [%s; %v]", herr, terr, w.cfg(), *plan)
+			return
+		}
+		for h := tl.Height(); h <= hd.Height(); h++ {
+			cc, cancel := short(c)
+			g, err := w.St.GetByHeight(cc, h)
+			cancel()
+			if err != nil || !simhdr.Equal(g, w.Ch.At(h)) {
+				s.Violate("gap-after-stop", nil, "after restart Tail=%d Head=%d but GetByHeight(%d)=%v,%v [%s; %v]", tl.Height(), hd.Height(), h, g, err, w.cfg(), *plan)
+				return
+			}
+		}
+		mu.Lock()
+		defer mu.Unlock()
+		for h := range acked {
+			x := w.Ch.At(h)
+			g, err := w.St.Get(c, x.Hash())
+			// (an acknowledged header above a gap left by a slower writer is stored, but not yet below Head)
+			if err != nil || !simhdr.Equal(g, x) {
+				s.Violate("acked-append-lost-after-stop", nil, "Append+Sync of %d had returned before Stop was called, after the restart Get(hash)=%v,%v (Tail=%d Head=%d) [%s; %v]", h, g, err, tl.Height(), hd.Height(), w.cfg(), *plan)
+				return
+			}
+		}
+	})
 }
